@@ -11,7 +11,9 @@ import (
 // Variable names are globally unique (no shadowing), so a name identifies a declaration.
 
 type Stmt struct {
-	K   string   `json:"k"`             // new move arr destroy consume use swap assign if iflet while for break continue return panic fun call
+	// new move arr destroy consume use swap assign if iflet while for break continue return panic fun call maybehalt
+	// switch (A = list of "case" pseudo-statements, each with body A; E on a case marks `default`)
+	K   string   `json:"k"`
 	V   string   `json:"v,omitempty"`   // declared / operated variable (or function name)
 	S   []string `json:"s,omitempty"`   // source variables
 	T   string   `json:"t,omitempty"`   // type of the declared variable: R, A, O
@@ -33,6 +35,9 @@ access(all) fun consumeO(_ r: @R?) { destroy r }
 access(all) fun useR(_ r: &R) {}
 access(all) fun useA(_ r: &[R]) {}
 access(all) fun useO(_ r: &R?) {}
+access(all) fun n(): Int { return 1 }
+access(all) struct S { access(all) fun fail(): Never { panic("") } }
+access(all) fun opt(): S? { return nil }
 `
 
 func typeText(t string) string {
@@ -141,6 +146,20 @@ func printStmts(sb *strings.Builder, ss []Stmt, ind int, types map[string]string
 			fmt.Fprintf(sb, "for i%d in [1, 2] {\n", loopCounter)
 			printStmts(sb, s.A, ind+1, types, loopDepth+1)
 			sb.WriteString(pad + "}\n")
+		case "switch":
+			sb.WriteString("switch n() {\n")
+			for i, cs := range s.A {
+				if cs.E {
+					sb.WriteString(pad + "default:\n")
+				} else {
+					fmt.Fprintf(sb, "%scase %d:\n", pad, i+1)
+				}
+				printStmts(sb, cs.A, ind+1, types, loopDepth)
+			}
+			sb.WriteString(pad + "}\n")
+		case "maybehalt":
+			// optional chaining on a function returning Never: halts only when the receiver is not nil
+			sb.WriteString("opt()?.fail()\n")
 		case "break", "continue", "return":
 			sb.WriteString(s.K + "\n")
 		case "panic":
@@ -208,7 +227,8 @@ type analysis struct {
 // loop body scope and the function scope start, and the set of variables declared inside the current function.
 type ctx struct {
 	scopes   [][]int // variable ids per open scope (shared, appended while executing)
-	loopBase int     // index of the innermost loop body scope, -1 outside loops
+	loopBase int     // index of the innermost loop body scope, -1 outside loops (target of continue)
+	breakBase int    // index of the scope a `break` leaves: innermost loop body or switch case, -1 if none
 	own      map[int]bool
 }
 
@@ -232,7 +252,7 @@ func Analyse(p *Program) Verdict {
 	start := make([]byte, len(a.vars))
 	in := stateSet{}
 	in.add(start)
-	c := &ctx{loopBase: -1, own: a.declaredIn(p.Body)}
+	c := &ctx{loopBase: -1, breakBase: -1, own: a.declaredIn(p.Body)}
 	out, _, _ := a.block(p.Body, in, c)
 	_ = out // the function scope was left inside block()
 	var v Verdict
@@ -420,11 +440,11 @@ func (a *analysis) block(ss []Stmt, in stateSet, c *ctx) (out, brk, cont stateSe
 			loopIn := stateSet{}
 			loopIn.addAll(cur)
 			allBrk := stateSet{}
-			saved := c.loopBase
+			saved, savedBreak := c.loopBase, c.breakBase
 			for {
-				c.loopBase = len(c.scopes)
+				c.loopBase, c.breakBase = len(c.scopes), len(c.scopes)
 				n, b, cn := a.block(s.A, loopIn, c)
-				c.loopBase = saved
+				c.loopBase, c.breakBase = saved, savedBreak
 				allBrk.addAll(b)
 				grown := stateSet{}
 				grown.addAll(n)
@@ -436,13 +456,39 @@ func (a *analysis) block(ss []Stmt, in stateSet, c *ctx) (out, brk, cont stateSe
 			}
 			next.addAll(loopIn)
 			next.addAll(allBrk)
+		case "switch":
+			// every case is a scope of its own; `break` leaves the case; without a default the switch may be skipped.
+			// (docs/language/control-flow: no implicit fallthrough.) The subject n() touches no resource.
+			hasDefault := false
+			savedBreak := c.breakBase
+			for _, cs := range s.A {
+				if cs.E {
+					hasDefault = true
+				}
+				c.breakBase = len(c.scopes)
+				o, b, cn := a.block(cs.A, cur, c)
+				c.breakBase = savedBreak
+				next.addAll(o)
+				next.addAll(b) // break: continue behind the switch
+				cont.addAll(cn)
+			}
+			if !hasDefault {
+				next.addAll(cur)
+			}
+		case "maybehalt":
+			// `opt()?.fail()` halts only if opt() is not nil: the path may continue
+			next = cur
 		case "break", "continue":
-			if c.loopBase < 0 {
+			base := c.loopBase
+			if s.K == "break" {
+				base = c.breakBase
+			}
+			if base < 0 {
 				a.outside[s.K+" outside of a loop"] = true
 				break
 			}
 			for k := range cur {
-				st := a.leave([]byte(k), c, c.loopBase, s.K)
+				st := a.leave([]byte(k), c, base, s.K)
 				if s.K == "break" {
 					brk.add(st)
 				} else {
@@ -464,7 +510,7 @@ func (a *analysis) block(ss []Stmt, in stateSet, c *ctx) (out, brk, cont stateSe
 				}
 			}
 		case "fun":
-			inner := &ctx{loopBase: -1, own: a.declaredIn(s.A)}
+			inner := &ctx{loopBase: -1, breakBase: -1, own: a.declaredIn(s.A)}
 			start := stateSet{}
 			start.add(make([]byte, len(a.vars)))
 			a.block(s.A, start, inner)
@@ -575,10 +621,13 @@ func (p *Program) Shape() (vars, ctl, depth, n int) {
 				vars++
 			}
 			switch s.K {
-			case "if", "iflet", "while", "for":
+			case "if", "iflet", "while", "for", "switch":
 				ctl++
 			}
-			if len(s.A) > 0 || len(s.B) > 0 || s.K == "if" || s.K == "while" || s.K == "for" || s.K == "iflet" || s.K == "fun" {
+			if s.K == "case" {
+				n--
+				walk(s.A, d)
+			} else if len(s.A) > 0 || len(s.B) > 0 || s.K == "if" || s.K == "while" || s.K == "for" || s.K == "iflet" || s.K == "fun" {
 				walk(s.A, d+1)
 				walk(s.B, d+1)
 			}
@@ -655,6 +704,15 @@ func (p *Program) matchesBranchGap(jump bool) bool {
 				e2, p2 := allExit(last.B)
 				return e1 && e2, p1 || p2
 			}
+		case "switch":
+			def, all, anyPanic := false, true, false
+			for _, cs := range last.A {
+				e, p := allExit(cs.A)
+				all = all && e
+				anyPanic = anyPanic || p
+				def = def || cs.E
+			}
+			return def && all, anyPanic
 		}
 		return false, false
 	}
@@ -706,6 +764,36 @@ func (p *Program) matchesBranchGap(jump bool) bool {
 				}
 			case "fun":
 				walk(s.A, map[string]bool{}, false)
+			case "switch", "case":
+				if s.K == "switch" && !jump {
+					// a case that consumes an outer resource and exits next to a case that halts: the pair is summarised
+					// as "definitely invalidated" (third level of mergeResourceInfos) and then merged with the other cases
+					consuming, halting := false, false
+					for _, cs := range s.A {
+						e, viaPanic := allExit(cs.A)
+						if e && consumes(cs.A, local) {
+							consuming = true
+						}
+						if e && viaPanic {
+							halting = true
+						}
+					}
+					if consuming && halting {
+						found = true
+					}
+				}
+				if s.K == "case" && jump {
+					// `break` out of a switch case behaves like `break` out of a loop iteration
+					walk(s.A, map[string]bool{}, true)
+					continue
+				}
+				if s.K == "case" && (inLoop || !jump) && !jump {
+					// a switch case is merged like an if-branch
+					if endsInJump(s.A) && consumes(s.A, local) {
+						found = true
+					}
+				}
+				walk(s.A, local, inLoop)
 			}
 		}
 	}
@@ -730,6 +818,15 @@ func (p *Program) matchesNestedReturnGap() bool {
 			return true
 		case "if", "iflet":
 			return last.E && allReturn(last.A) && allReturn(last.B)
+		case "switch":
+			def := false
+			for _, cs := range last.A {
+				if !allReturn(cs.A) {
+					return false
+				}
+				def = def || cs.E
+			}
+			return def && len(last.A) >= 2
 		}
 		return false
 	}
@@ -751,6 +848,9 @@ func (p *Program) matchesNestedReturnGap() bool {
 			return false
 		}
 		last := ss[len(ss)-1]
+		if last.K == "switch" {
+			return allReturn(ss) && consumesAny([]Stmt{last})
+		}
 		return (last.K == "if" || last.K == "iflet") && last.E && allReturn(last.A) && allReturn(last.B) && consumesAny([]Stmt{last})
 	}
 	terminated := func(ss []Stmt) bool {
@@ -758,9 +858,11 @@ func (p *Program) matchesNestedReturnGap() bool {
 			return false
 		}
 		switch ss[len(ss)-1].K {
-		case "return", "break", "continue", "panic":
+		case "return", "panic":
 			return true
 		}
+		// (a branch that ends in break/continue still reaches the scope end of the loop body / switch case, where the
+		// downgraded invalidation is reported)
 		return allReturn(ss)
 	}
 	var walk func(ss []Stmt)
@@ -768,6 +870,28 @@ func (p *Program) matchesNestedReturnGap() bool {
 		for _, s := range ss {
 			if (s.K == "if" || s.K == "iflet") && s.E {
 				if nestedReturning(s.A) && !terminated(s.B) && consumesAny(s.B) || nestedReturning(s.B) && !terminated(s.A) && consumesAny(s.A) {
+					found = true
+				}
+			}
+			if s.K == "switch" {
+				// the cases of a switch are merged pairwise like a chain of if/else: two returning cases next to one that
+				// consumes and continues give the same situation
+				returning, continuing := 0, 0
+				for _, cs := range s.A {
+					switch {
+					case allReturn(cs.A) && consumesAny(cs.A):
+						returning++
+					case !terminated(cs.A) && consumesAny(cs.A):
+						continuing++
+					}
+				}
+				nested := 0
+				for _, cs := range s.A {
+					if nestedReturning(cs.A) {
+						nested++
+					}
+				}
+				if (returning >= 2 || nested >= 1) && continuing >= 1 {
 					found = true
 				}
 			}
@@ -814,7 +938,7 @@ func (p *Program) matchesLoopHaltUnsoundness() bool {
 		}
 		for _, s := range ss {
 			switch s.K {
-			case "panic":
+			case "panic", "maybehalt":
 				hasPanic = true
 			case "new", "move", "arr":
 				local[s.V] = true
@@ -911,5 +1035,156 @@ func (p *Program) matchesLoopReturnJumpGap() bool {
 		}
 	}
 	walk(p.Body, map[string]bool{})
+	return found
+}
+
+// hasExitingScopeWithLocal: some block declares a resource and ends in a statement through which every path leaves the
+// function (return / panic / if-else of such). Together with a break/continue anywhere earlier this is the shape of FS25:
+// `checkResourceLoss` skips the scope-end check only when `DefinitelyExited && !MaybeJumped()`, and MaybeJumped is
+// function-wide; with a both-branches-return merge ("NO-OP") or a halt the local then looks un-invalidated at the scope end.
+func (p *Program) hasExitingScopeWithLocal() bool {
+	found := false
+	var allExit func(ss []Stmt) bool
+	allExit = func(ss []Stmt) bool {
+		if len(ss) == 0 {
+			return false
+		}
+		last := ss[len(ss)-1]
+		switch last.K {
+		case "return", "panic":
+			return true
+		case "if", "iflet":
+			return last.E && allExit(last.A) && allExit(last.B)
+		}
+		return false
+	}
+	var walk func(ss []Stmt, bound bool)
+	walk = func(ss []Stmt, bound bool) {
+		declares := bound
+		for _, s := range ss {
+			switch s.K {
+			case "new", "move", "arr":
+				declares = true
+			}
+			walk(s.A, s.K == "iflet")
+			walk(s.B, false)
+		}
+		if declares && allExit(ss) {
+			found = true
+		}
+	}
+	walk(p.Body, false)
+	return found
+}
+
+func (p *Program) contains(kind string) bool {
+	found := false
+	var walk func(ss []Stmt)
+	walk = func(ss []Stmt) {
+		for _, s := range ss {
+			if s.K == kind {
+				found = true
+			}
+			walk(s.A)
+			walk(s.B)
+		}
+	}
+	walk(p.Body)
+	return found
+}
+
+// matchesSwitchBreakUnsoundness is the predicate of finding FS45: a switch case that contains a `break` on some path but whose
+// last statement returns on every remaining path. The case then counts as "definitely returned" and its invalidations (or
+// missing invalidations) are ignored behind the switch although the break path continues there.
+func (p *Program) matchesSwitchBreakUnsoundness() bool {
+	found := false
+	var allReturn func(ss []Stmt) bool
+	allReturn = func(ss []Stmt) bool {
+		if len(ss) == 0 {
+			return false
+		}
+		last := ss[len(ss)-1]
+		switch last.K {
+		case "return", "panic":
+			return true
+		case "if", "iflet":
+			return last.E && allReturn(last.A) && allReturn(last.B)
+		}
+		return false
+	}
+	var hasBreak func(ss []Stmt) bool
+	hasBreak = func(ss []Stmt) bool {
+		for _, s := range ss {
+			if s.K == "break" {
+				return true
+			}
+			if s.K == "while" || s.K == "for" || s.K == "fun" || s.K == "switch" {
+				continue
+			}
+			if hasBreak(s.A) || hasBreak(s.B) {
+				return true
+			}
+		}
+		return false
+	}
+	var walk func(ss []Stmt)
+	walk = func(ss []Stmt) {
+		for _, s := range ss {
+			if s.K == "case" && hasBreak(s.A) && allReturn(s.A) {
+				found = true
+			}
+			walk(s.A)
+			walk(s.B)
+		}
+	}
+	walk(p.Body)
+	return found
+}
+
+// matchesJumpBeforeHaltUnsoundness is the predicate of finding FS46: a block contains a break/continue on some path and ends
+// in panic(...) on the others. The block counts as definitely halted, so a sibling branch's invalidation is taken as
+// definite and the resource that is still live on the jump path is never reported.
+func (p *Program) matchesJumpBeforeHaltUnsoundness() bool {
+	found := false
+	var hasJump func(ss []Stmt) bool
+	hasJump = func(ss []Stmt) bool {
+		for _, s := range ss {
+			if s.K == "break" || s.K == "continue" {
+				return true
+			}
+			if s.K == "while" || s.K == "for" || s.K == "fun" {
+				continue
+			}
+			if hasJump(s.A) || hasJump(s.B) {
+				return true
+			}
+		}
+		return false
+	}
+	var haltsAtEnd func(ss []Stmt) bool
+	haltsAtEnd = func(ss []Stmt) bool {
+		if len(ss) == 0 {
+			return false
+		}
+		last := ss[len(ss)-1]
+		switch last.K {
+		case "panic", "maybehalt":
+			return true
+		case "if", "iflet":
+			return last.E && haltsAtEnd(last.A) && haltsAtEnd(last.B)
+		}
+		return false
+	}
+	var walk func(ss []Stmt)
+	walk = func(ss []Stmt) {
+		if haltsAtEnd(ss) && hasJump(ss[:len(ss)-1]) {
+			found = true
+		}
+		for _, s := range ss {
+			walk(s.A)
+			walk(s.B)
+		}
+	}
+	walk(p.Body)
 	return found
 }
